@@ -78,7 +78,7 @@ pub fn install() {
     unsafe {
         for sig in [libc::SIGSEGV, libc::SIGBUS, libc::SIGABRT, libc::SIGILL, libc::SIGFPE] {
             let mut sa: libc::sigaction = std::mem::zeroed();
-            sa.sa_sigaction = on_crash as usize;
+            sa.sa_sigaction = on_crash as *const () as usize;
             sa.sa_flags = libc::SA_ONSTACK;
             libc::sigemptyset(&mut sa.sa_mask);
             libc::sigaction(sig, &sa, std::ptr::null_mut());
